@@ -363,13 +363,18 @@ class Formatter:
             return f"({sql})"
 
     def _exists(self, value, prec):
-        sql = self.dispatch(value, precedence["exists"])
         if is_data(value) and "from" in value:
-            return f"EXISTS {sql}"
-        return f"{sql} IS NOT NULL"
+            return f"EXISTS {self.dispatch(value, precedence['exists'])}"
+        sql = f"{self.dispatch(value, precedence['is'])} IS NOT NULL"
+        if prec < precedence["is"]:
+            return f"({sql})"
+        return sql
 
     def _missing(self, value, prec):
-        return "{0} IS NULL".format(self.dispatch(value, precedence["is"]))
+        sql = "{0} IS NULL".format(self.dispatch(value, precedence["is"]))
+        if prec < precedence["is"]:
+            return f"({sql})"
+        return sql
 
     def _collate(self, pair, prec):
         return "{0} COLLATE {1}".format(self.dispatch(pair[0], precedence["collate"]), pair[1])
